@@ -9,6 +9,7 @@ mod known;
 mod minimize;
 mod oracle_conn;
 mod oracle_rate;
+mod oracle_time;
 mod oracle_transport;
 mod oracle_twin;
 mod oracle_wire;
